@@ -94,6 +94,12 @@ def run_runner_case(case: dict[str, Any]) -> dict[str, Any]:
                 await anyio.sleep(100 * TICK)
             if kind == "signalDuringStartup":
                 signal.raise_signal(getattr(signal, ending.get("sig", "SIGTERM")))
+                if ending.get("shieldFail"):
+                    # … while this component is in a step that must not be interrupted, after which it fails with an
+                    # ordinary error (siblings may still be starting): a signal and a failure in one start-up
+                    with anyio.CancelScope(shield=True):
+                        await anyio.sleep(1 * TICK)
+                    raise EXN[1]()
                 await anyio.sleep(50 * TICK)
             if kind == "signalAfterStartup":
                 await start_service_task(signal_service, "signaller")
